@@ -17,6 +17,7 @@ import (
 	"encoding/xml"
 	"errors"
 	"io"
+	"strconv"
 	"sync"
 
 	"mellium.im/xmlstream"
@@ -97,9 +98,25 @@ func (h *Handler) HandleMessage(msg stanza.Message, t xmlstream.TokenReadEncoder
 	p := dataMessage{}
 	err := d.Decode(&p)
 	if err != nil {
+		if refuseBadSeq(err) {
+			_, err = xmlstream.Copy(t, msg.Error(stanza.Error{
+				Type:      stanza.Modify,
+				Condition: stanza.BadRequest,
+			}))
+		}
 		return err
 	}
 	return handlePayload(h, msg, p.Data, t)
+}
+
+// refuseBadSeq reports whether decoding a data packet failed because its seq
+// attribute is no packet number (not a number, or one outside 0-65535). Such
+// a packet is undecodable, which is a matter between the two ends of the
+// bytestream and answered with a stanza error like undecodable data is; it is
+// no reason to end the whole session with a stream error.
+func refuseBadSeq(err error) bool {
+	var numErr *strconv.NumError
+	return errors.As(err, &numErr)
 }
 
 // HandleIQ implements mux.IQHandler.
@@ -144,6 +161,12 @@ func (h *Handler) HandleIQ(iq stanza.IQ, t xmlstream.TokenReadEncoder, start *xm
 		p := dataPayload{}
 		err := d.Decode(&p)
 		if err != nil {
+			if refuseBadSeq(err) {
+				_, err = xmlstream.Copy(t, iq.Error(stanza.Error{
+					Type:      stanza.Modify,
+					Condition: stanza.BadRequest,
+				}))
+			}
 			return err
 		}
 		return handlePayload(h, iq, p, t)
